@@ -12,7 +12,7 @@ DefValsGraph == {0, 5, 10}
 MaxAssetsDef == atoi(EnvOr("VERIF_MAXASSETS", "3"))
 MaxAssocsDef == atoi(EnvOr("VERIF_MAXASSOCS", "3"))
 MaxMembersDef == atoi(EnvOr("VERIF_MAXMEMBERS", "2"))
-DefValsWide == {-1, 0, 5, 10, 15}
+DefValsWide == IF EnvOr("VERIF_NODEF", "0") = "1" THEN {} ELSE {-1, 0, 5, 10, 15}
 FreshPoolDef == {1, 3}
 AutoNamesDef == {"auto1", "auto2"}
 DefValsDef == {-1, 5, 15}
